@@ -25,4 +25,6 @@ PROPS = {
     "C04": {"module": "harness.c04", "level_text": "TODO", "level_note": _BOUNDED},
     "C05": {"module": "harness.c05", "level_text": "TODO", "level_note": _BOUNDED},
     "C08": {"module": "harness.c08", "level_text": "TODO", "level_note": _BOUNDED},
+    "C06": {"module": "harness.c06", "level_text": "TODO", "level_note": _BOUNDED},
+    "C07": {"module": "harness.c07", "level_text": "TODO", "level_note": _BOUNDED},
 }
